@@ -3,7 +3,7 @@ package main
 import "fmt"
 
 // placeholders filled in by later pipelines
-func runConstructorTable(c *Ctx) {}
+func runConstructorTable(c *Ctx) { runConstructorTableImpl(c) }
 
 // store level of C15: real stores reused after Clear vs brand-new stores (all five kinds)
 func runStoreClearTwin(c *Ctx) {
